@@ -348,6 +348,10 @@ type Unpub struct {
 	Label string
 	Ops   map[string][]*operation.AnchoredOperation
 	Fault func(op string) error
+	// PerSuffix: the store holds at most ONE pending operation per DID and is keyed by the DID suffix alone - Put refuses
+	// a second one, Delete/DeleteAll remove whatever is pending for the suffix (the semantics of stores that index
+	// pending operations by DID).
+	PerSuffix bool
 }
 
 // NewUnpub creates an empty unpublished store.
@@ -373,6 +377,10 @@ func (u *Unpub) Put(op *operation.AnchoredOperation) error {
 		return err
 	}
 
+	if u.PerSuffix && len(u.Ops[op.UniqueSuffix]) > 0 {
+		return errors.New("a pending operation already exists for this DID")
+	}
+
 	c := *op
 	u.Ops[op.UniqueSuffix] = append(u.Ops[op.UniqueSuffix], &c)
 
@@ -391,6 +399,12 @@ func (u *Unpub) Delete(op *operation.AnchoredOperation) error {
 }
 
 func (u *Unpub) remove(op *operation.AnchoredOperation) {
+	if u.PerSuffix {
+		delete(u.Ops, op.UniqueSuffix)
+
+		return
+	}
+
 	list := u.Ops[op.UniqueSuffix]
 	for i, e := range list {
 		if e.Type == op.Type && string(e.OperationRequest) == string(op.OperationRequest) {
